@@ -196,6 +196,41 @@ def check_lookalike(c):
     return devs, max(n, 1)
 
 
+# ---- suffixes that make a checksum computed over the wrong extent come out right ----------------------------------------
+
+
+def st_crc_wrong_extent():
+    """A CRC-carrying PDU followed by a suffix in which two octets are solved for, so that a checksum computed over another extent
+    than the PDU's own octets agrees with the stored trailer (or is zero): over the buffer without its last two octets, over the whole
+    buffer, over the PDU without its header.  A decoder that verifies the wrong extent accepts exactly these; random suffixes hit one
+    with probability 2^-16."""
+    from ..ref.crc import crc16_fast, solve_two_octets
+
+    def build(t):
+        p, filler, tail, entry_kind, mode = t
+        raw = M.ref_pdu(p)
+        stored = int.from_bytes(raw[-2:], "big")
+        variants = []
+        for fl in (b"", filler):
+            if mode == 0:
+                # crc16(pdu + fl + XX) == stored trailer, then two more octets: "the checksum is the last two octets of the buffer" read with the stored one
+                body = solve_two_octets(raw + fl + b"\x00\x00", len(raw) + len(fl), stored)
+                variants.append(body[len(raw):] + tail[:2].ljust(2, b"\x77"))
+                # ... and the buffer ending in the PDU's own trailer value again
+                variants.append(body[len(raw):] + raw[-2:])
+            else:
+                # crc16 over the whole buffer == 0 although the suffix is not zero fill
+                body = solve_two_octets(raw + fl + b"\x00\x00", len(raw) + len(fl), 0)
+                variants.append(body[len(raw):])
+        cn = D.PDU_CLASS_NAMES[p["kind"]]
+        entry = f"{cn}.unpack" if entry_kind == 0 else ("PduFactory.from_raw" if entry_kind == 1 else "PduFactory.from_raw_to_holder")
+        return {"variants": [{"entry": entry, "cfg": {}, "raw": raw.hex(), "suffix": v.hex(), "shape": "checksum over another extent agrees", "crc": 1} for v in variants if v]}
+
+    conf = M.st_conf(crc=1)
+    pdu = st.sampled_from(M.KINDS).flatmap(lambda k: M.st_pdu(k, conf, small=True))
+    return st.tuples(pdu, st.binary(min_size=1, max_size=9), st.binary(min_size=2, max_size=2), st.integers(0, 2), st.integers(0, 1)).map(build)
+
+
 # ---- back-to-back units split purely by the reported lengths ----------------------------------------------------
 
 
@@ -356,6 +391,15 @@ CLAUSES.append(Clause(
     required=["FinishedPdu", "EofPdu", "MetadataPdu", "PduFactory", "trailer type 06", "trailer type 01"],
     rule="every case is non-trivial by construction (2^-16 rare for random fields)",
     n={"quick": 150, "thorough": 1500},
+))
+
+CLAUSES.append(Clause(
+    id="C09.crc_wrong_extent",
+    doc="PDUs with CRC followed by suffixes in which two octets are solved so that the checksum over another extent (buffer minus two octets, whole buffer) agrees: decoded exactly "
+        "as the PDU alone or refused - a decoder that verifies the wrong extent folds the trailer and the suffix into file data, options or requests",
+    strategy=st_crc_wrong_extent, check=check_lookalike, nontrivial=lambda c: True, weight_by_evals=True,
+    classify=lambda c: [c["variants"][0]["entry"].split(".")[0]] if c["variants"] else [],
+    required=["FileDataPdu", "PduFactory"], rule="every case is non-trivial by construction", n={"quick": 200, "thorough": 2000},
 ))
 
 PROPERTY = Property(
